@@ -322,6 +322,10 @@ def build_phase(ctx, node, plugcls, timeout_s=None):
     ph = htf.diagnose(*[make_diag(ctx, node['name'], i) for i in range(nd)])(ph)
   if node['plugs']:
     ph = htf.plug(**{'plug_%s' % c: plugcls[c] for c in sorted(node['plugs'])})(ph)
+    if len(node['name']) % 2 == 0:
+      # an argument bound with with_args() under the name of a requested plug: the plug instance wins
+      # ("receives that same instance under the requested argument name")
+      ph = ph.with_args(**{'plug_%s' % sorted(node['plugs'])[0]: 'shadowed-by-the-plug'})
   return ph
 
 
